@@ -11,6 +11,8 @@ INVARIANT HistoryIndependent
 INVARIANT CarriedStateIsOwn
 INVARIANT Emit
 PROPERTY Purity
+PROPERTY AbortLeavesNothing
+PROPERTY CompletedOverwritesAborted
 PROPERTY Locality
 PROPERTY FreshOnSimulate
 PROPERTY ParamsChangeOnlyInFit
